@@ -12,12 +12,17 @@ fixes/fix-c04-start-end.diff), Pdb/Model/BTree.lean (separator codec, tree updat
     `merged e.ov (beOf e.rid)` = backend overridden by the overlay, removed keys dropped, at
     the time of that call.  Stage moves (process / flush / enact) only move data between
     overlay and backend and keep `merged`; commits change it; both are covered because the
-    environment of each call is universally quantified.
+    environment of each call is universally quantified.  THAT `merged` of the environments the
+    pipeline really produces is the latest committed state (`specApply` of all accepted
+    transactions), for every history, is proved in Props/C04c.lean (`C04_pipeline_merged`,
+    `C04_pipeline_iter_spec`, `C04_pipeline_get_spec`) for the executable pipeline
+    Pdb/Model/BTreePipe.lean (commit overlay, queue, record id, batched tree update, node-stack
+    cursor); reference-counted columns: Props/C04r.lean.
     Assumptions visible in the statements: the overlay is key-sorted without duplicate keys
     (it is a `BTreeMap`), the backend enumerations are key-sorted (TreeInv, part (c)), and
     equal record ids mean equal backends (the function `beOf`).
     The abstraction "backend cursor = position in the sorted list" (see the Model file) is
-    tied to `BTreeIterState` by the correspondence runs, not by proof.
+    refined by the `BTreeIterState` node-stack cursor: Props/C04b.lean (`C04b_cursor_refines`).
     The UNPATCHED code violates the statement: `C04_F5a_counterexample`,
     `C04_F5b_counterexample`.
 (b) `C04_separator_roundtrip`.
